@@ -957,3 +957,49 @@ STD_MODELS.update({
     r"^core::f64::<impl f64>::min$": _m_f64_minmax("<="),
     r"^core::f64::<impl f64>::max$": _m_f64_minmax(">="),
 })
+
+
+def m_iter_position(it, args, callee):
+    """`iter.position(pred)`: index of the FIRST element satisfying the predicate"""
+    src = it.deref(args[0], it.cur_env) if not isinstance(args[0], (IterVal, VecVal)) else args[0]
+    items = src.items[src.pos:] if isinstance(src, IterVal) else src.items
+    out = []
+    for pc, env, acc in it.run_closure_seq(args[1], list(items)):
+        if any(k == "panic" for k, _ in acc):
+            out.append((pc, None, "panic", [v for k, v in acc if k == "panic"][0]))
+            continue
+        misses = []
+        for idx, (_, r) in enumerate(acc):
+            b = r.expr if isinstance(r, SV) else it.lazy_scalar(r, "bool").expr
+            out.append((pc + misses + [b], it._mk_enum("Option", "Some", [SV("usize", str(idx))]), "return", None, {"env": env}))
+            misses = misses + ["(not %s)" % b]
+        out.append((pc + misses, it._mk_enum("Option", "None", []), "return", None, {"env": env}))
+    return out
+
+
+def m_slice_split_at(it, args, callee):
+    v = it.deref(args[0], it.cur_env) if not isinstance(args[0], VecVal) else args[0]
+    mid = args[1]
+    if not (isinstance(v, VecVal) and isinstance(mid, SV) and re.match(r"^\d+$", mid.expr) and int(mid.expr) <= len(v.items)):
+        raise Unsupported("split_at(%r) of %r" % (mid, v))
+    m = int(mid.expr)
+    return Agg("tuple", {"0": VecVal(v.items[:m]), "1": VecVal(v.items[m:])})
+
+
+def m_slice_split_first(it, args, callee):
+    v = it.deref(args[0], it.cur_env) if not isinstance(args[0], VecVal) else args[0]
+    if not isinstance(v, VecVal):
+        raise Unsupported("split_first of %r" % (v,))
+    if not v.items:
+        return it._mk_enum("Option", "None", [])
+    return it._mk_enum("Option", "Some", [Agg("tuple", {"0": v.items[0], "1": VecVal(v.items[1:])})])
+
+
+CLOSURE_MODELS.update({
+    r"^<std::slice::Iter<'_, .*> as Iterator>::position::<": m_iter_position,
+})
+MORE_MODELS.update(CLOSURE_MODELS)
+MORE_MODELS.update({
+    r"^core::slice::<impl \[.*\]>::split_at$": m_slice_split_at,
+    r"^core::slice::<impl \[.*\]>::split_first$": m_slice_split_first,
+})
